@@ -1,6 +1,7 @@
 import BGV.Model.Paths
 import BGV.Algo.Bfs4
 import BGV.Algo.AllPred3
+import BGV.Algo.Bfs5
 /-!
 # Property C11 — breadth-first geodesics (part: `findVertexPredecessors`)
 
@@ -14,8 +15,12 @@ The all-predecessor search (`C11_findAllVertexPredecessors`): true distances, an
 list of `v` is *exactly* the set of in-neighbours one hop closer, without repeats (graphs with
 fewer than 2^32−1 vertices, so that no distance reaches the sentinel).
 
+`findGeodesics` (`C11_findGeodesics`): `[source]` for the source itself, the empty path when the
+destination is unreachable, otherwise a path along stored edges from source to destination with
+exactly the minimum number of hops.
+
 Not yet proved in Lean (correspondence only, exhaustive on all digraphs with ≤ 4 vertices and all
-undirected graphs with ≤ 5): the two path-reconstruction machines.
+undirected graphs with ≤ 5): the multi-path machine behind `findAllGeodesics*`.
 -/
 namespace BGV
 open Bfs
@@ -116,6 +121,62 @@ theorem C11_entry_all {L : Type} (g : G L) (s : Nat) :
 
 example : (allPredRun [[1, 2], [3], [3], [], [0]] 0).preds = [[], [0], [0], [1, 2], []] ∧
     (allPredRun [[1, 2], [3], [3], [], [0]] 0).dist = [0, 1, 1, 2, MAX] := by decide
+
+/-- **C11, findGeodesics.** -/
+theorem C11_findGeodesics {L : Type} (g : G L) (s t : Nat) (hs : s < g.size) (ht : t < g.size)
+    (hwf : adjWF g.adj = true) (hlen : g.adj.length = g.size) (hn : g.size ≤ MAX) :
+    (s = t → findGeodesics g s t = .ok [s]) ∧
+    (s ≠ t → ¬ Reachable g.adj s t → findGeodesics g s t = .ok []) ∧
+    (s ≠ t → Reachable g.adj s t →
+      ∃ path, findGeodesics g s t = .ok path ∧ chainOK g.adj path ∧ path.head? = some s ∧
+        path.getLast? = some t ∧ Walk g.adj s t (path.length - 1) ∧ ∀ k, Walk g.adj s t k → path.length ≤ k + 1) := by
+  have hr : (decide (s < g.size) && decide (t < g.size)) = true := by simp [hs, ht]
+  have hWF : WF g.adj := (adjWF_iff g.adj).1 hwf
+  have hs' : s < g.adj.length := by rw [hlen]; exact hs
+  obtain ⟨h1, h2, h3, h4⟩ := bfs_correct g.adj s hWF hs'
+  obtain ⟨htree, hdlt, hplen⟩ := bfs_predTree g.adj s hWF hs' (by rw [hlen]; exact hn)
+  have hdle : ∀ v, (bfs g.adj s).s v = true → (bfs g.adj s).d v ≤ (bfs g.adj s).pred.length :=
+    fun v hv => by have := hdlt v hv; omega
+  have hfvp : findVertexPredecessors g s = .ok (bfsRun g.adj s) := by simp [findVertexPredecessors, hs, hwf]
+  have hd : ∀ v, (bfsRun g.adj s).dist.getD v MAX = (bfs g.adj s).d v := by
+    intro v; rw [(bfsRun_eq g.adj s).1]; rfl
+  have hpred : (bfsRun g.adj s).pred = (bfs g.adj s).pred := (bfsRun_eq g.adj s).2
+  have hseen_iff : ∀ v, (bfs g.adj s).s v = true ↔ Reachable g.adj s v := by
+    intro v
+    constructor
+    · intro hv; exact ⟨_, h2 v hv⟩
+    · rintro ⟨k, hk⟩; exact (h1 v k hk).1
+  have hfin : ∀ v, (bfs g.adj s).s v = true → (bfs g.adj s).d v ≠ MAX := by
+    intro v hv
+    have h5 := hdlt v hv
+    rw [hplen, hlen] at h5
+    omega
+  refine ⟨?_, ?_, ?_⟩
+  · intro hst
+    subst hst
+    simp [findGeodesics, hs]
+  · intro hst hnr
+    have hns : (bfs g.adj s).s t = false := by
+      cases hsv : (bfs g.adj s).s t with
+      | false => rfl
+      | true => exact absurd ((hseen_iff t).1 hsv) hnr
+    simp only [findGeodesics, hr, Bool.not_true, Bool.false_eq_true, if_false, hst, hfvp, Res.bind, hd,
+      (h4 t hns).1, ne_eq, not_true_eq_false]
+  · intro hst hreach
+    have hts := (hseen_iff t).2 hreach
+    obtain ⟨res, r1, r2, r3, r4, r5⟩ := findPath_spec htree hdle t hts hst
+    refine ⟨res, ?_, r2, r3, r4, ?_, ?_⟩
+    · simp only [findGeodesics, hr, Bool.not_true, Bool.false_eq_true, if_false, hst, hfvp, Res.bind, hd,
+        ne_eq, hfin t hts, not_false_eq_true, if_true, hpred, r1]
+    · rw [r5]; simpa using h2 t hts
+    · intro k hk
+      rw [r5]
+      have := (h1 t k hk).2
+      omega
+
+example : findGeodesics (⟨false, 5, [[1, 2], [3], [3], [], [0]], 5, []⟩ : G Nat) 0 3 = .ok [0, 1, 3] ∧
+    findGeodesics (⟨false, 5, [[1, 2], [3], [3], [], [0]], 5, []⟩ : G Nat) 0 4 = .ok [] ∧
+    findGeodesics (⟨false, 5, [[1, 2], [3], [3], [], [0]], 5, []⟩ : G Nat) 2 2 = .ok [2] := by decide
 
 example : WF [[1, 2], [3], [3], [], [0]] ∧ (bfsRun [[1, 2], [3], [3], [], [0]] 0).dist = [0, 1, 1, 2, MAX] := by
   constructor
